@@ -343,6 +343,14 @@ def chord_to_musescore_lyric(chord: Chord):
     return "{} /{}".format(chord.element_to_str(), chord.tonality_to_str()).replace('%', '')
 
 
+def _rest(quarter_length):
+    """A rest of exactly this length (note.Rest(0) would fall back to a quarter rest)"""
+    from music21 import note
+    rest = note.Rest()
+    rest.duration.quarterLength = quarter_length
+    return rest
+
+
 def chord_instrument_to_notes(chord, voice, part_name, ins_idx, last_spelling=None, curr_dynamic='mf', no_repeat=False,
                               last_pitch=None, last_is_silence=True):
     """
@@ -383,13 +391,13 @@ def chord_instrument_to_notes(chord, voice, part_name, ins_idx, last_spelling=No
                             new_note.tie = tie.Tie('stop')
                             voice.append(new_note)
                         else:
-                            voice.append(note.Rest(n.duration))
+                            voice.append(_rest(n.duration))
                             last_is_silence = True
                     except:
-                        voice.append(note.Rest(n.duration))
+                        voice.append(_rest(n.duration))
                         last_is_silence = True
             elif n.is_silence:
-                voice.append(note.Rest(n.duration))
+                voice.append(_rest(n.duration))
                 last_is_silence = True
             elif n.is_continuation:
                 if old_last_is_silence:
@@ -402,19 +410,19 @@ def chord_instrument_to_notes(chord, voice, part_name, ins_idx, last_spelling=No
                         new_note.tie = tie.Tie('stop')
                         voice.append(new_note)
                     else:
-                        voice.append(note.Rest(n.duration))
+                        voice.append(_rest(n.duration))
                         last_is_silence = True
                 except:
-                    voice.append(note.Rest(n.duration))
+                    voice.append(_rest(n.duration))
                     last_is_silence = True
 
         if part.duration < chord.duration:
             # A part shorter than its chord is silent until the next chord starts
-            voice.append(note.Rest(chord.duration - part.duration))
+            voice.append(_rest(chord.duration - part.duration))
             last_is_silence = True
 
     else:
-        voice.append(note.Rest(chord.duration))
+        voice.append(_rest(chord.duration))
         last_is_silence = True
 
     return voice, last_spelling, curr_dynamic, last_pitch, last_is_silence
